@@ -1,10 +1,10 @@
 CONSTANTS
-  NW = 2
-  MaxLive = 3
-  MaxStops = 2
-  Timeout = 3
-  MaxBlocks = 0
-  ForcedAwaitsWorkers = FALSE
+  NW = 1
+  MaxLive = 1
+  MaxStops = 1
+  Timeout = 2
+  MaxBlocks = 1
+  ForcedAwaitsWorkers = TRUE
   GracefulSkipsAwait = FALSE
   CompleteBeforeJoin = FALSE
   TermIsForced = FALSE
@@ -13,6 +13,5 @@ CONSTANTS
   WakeAcceptFirst = FALSE
 SPECIFICATION Spec
 VIEW View
-INVARIANTS C06_GracefulWaits C06_GracefulLetsFinish C06_NoDispatchAfterCompletion C06_SignalKinds
-PROPERTIES Steps
+INVARIANTS NEG_ForcedNeverCompletesWithBusy
 CHECK_DEADLOCK FALSE
